@@ -2,6 +2,7 @@ package ipnisync
 
 import (
 	"context"
+	"errors"
 	"io"
 	"net/http"
 	"net/url"
@@ -22,7 +23,8 @@ func VerifC04_FetchFallback() {
 	legacy := verif_Bool("legacyPublisher")
 	verif_Assume(!legacy || plain) // a legacy publisher is only ever reached over plain HTTP
 	// what a modern publisher answers for paths outside its IPNI mount
-	otherStatus := []int{http.StatusBadRequest, http.StatusNotFound, http.StatusForbidden}[verif_Choose("statusOutsideMount", 0, 2)]
+	// (200: a catch-all web server that answers every unknown path with some page)
+	otherStatus := []int{http.StatusBadRequest, http.StatusNotFound, http.StatusForbidden, http.StatusOK}[verif_Choose("statusOutsideMount", 0, 3)]
 	exists := map[string]bool{"head": true, "blk": true}
 	// one request (-1: none) is answered with a transient fault status instead
 	faultAt := verif_Choose("faultAtRequest", 0, 3+2*verif_Tier()) - 1
@@ -47,6 +49,9 @@ func VerifC04_FetchFallback() {
 			if legacy {
 				return vResp(http.StatusNotFound, nil), nil
 			}
+			if otherStatus == http.StatusOK {
+				return vResp(otherStatus, []byte("<html>not what was asked for</html>")), nil
+			}
 			return vResp(otherStatus, nil), nil
 		}
 		if exists[rsrc] {
@@ -60,7 +65,15 @@ func VerifC04_FetchFallback() {
 		r := []string{"head", "blk", "missing"}[verif_Choose("resource", 0, 2)]
 		got := false
 		faulted = false
-		err := s.fetch(context.Background(), r, func(io.Reader) error { got = true; return nil })
+		err := s.fetch(context.Background(), r, func(body io.Reader) error {
+			// the caller verifies what it is given (fetchBlock: the digest; GetHead: the signature)
+			b, rerr := io.ReadAll(body)
+			if rerr != nil || string(b) != "x" {
+				return errors.New("model: content does not verify")
+			}
+			got = true
+			return nil
+		})
 		verif_Reach("fetched")
 		if faulted {
 			// the fetch that met the fault may fail; it must not impair the later ones
